@@ -514,6 +514,127 @@ theorem insert_context_exact (st : St) (g : DiGraph) (hwf : WF g) (hfresh : ∀ 
   have := (List.mem_filter.mp hm).2
   simp [hx] at this
 
+/-! ## output_tasks / input_tasks, and composing after a replacement -/
+
+/-- **output_tasks_are_sinks**: `output_tasks` is, in node order, exactly the
+    tasks of the CURRENT graph without outgoing edge; `input_tasks` those without
+    incoming edge — whatever operations produced the graph. -/
+theorem output_tasks_are_sinks (g : DiGraph) :
+    (∀ x, x ∈ g.outputNodes ↔ x ∈ g.nodes ∧ ∀ y, (x, y) ∉ g.edges) ∧ g.outputNodes.Sublist g.nodes ∧
+    (∀ x, x ∈ g.inputNodes ↔ x ∈ g.nodes ∧ ∀ y, (y, x) ∉ g.edges) ∧ g.inputNodes.Sublist g.nodes :=
+  ⟨fun _ => mem_outputNodes, List.filter_sublist, fun _ => mem_inputNodes, List.filter_sublist⟩
+
+/-- **replace_task_outputs**: after `replace_task(old, new)` (new task object)
+    the replaced task is no output task any more; the new task is one iff the
+    old one was; every other task keeps its status. -/
+theorem replace_task_outputs (g : DiGraph) (old new : Nat) (h : WF g) (ho : old ∈ g.nodes) (hn : new ∉ g.nodes) :
+    ∀ x, x ∈ (replaceTask g old new).outputNodes ↔
+      (x ∈ g.outputNodes ∧ x ≠ old) ∨ (x = new ∧ old ∈ g.outputNodes) := by
+  obtain ⟨_, hnodes, hedges⟩ := replace_task_exact g old new h ho hn
+  have hne : new ≠ old := fun heq => hn (heq ▸ ho)
+  intro x
+  rw [mem_outputNodes, hnodes]
+  simp only [List.mem_append, List.mem_filter, List.mem_singleton, bne_iff_ne, ne_eq]
+  constructor
+  · rintro ⟨hx, hs⟩
+    rcases hx with ⟨hxg, hxo⟩ | rfl
+    · left
+      refine ⟨mem_outputNodes.mpr ⟨hxg, fun y hy => ?_⟩, hxo⟩
+      exact hs (ren old new y) ((hedges _).mpr ⟨(x, y), hy, by simp [ren, hxo]⟩)
+    · right
+      refine ⟨rfl, mem_outputNodes.mpr ⟨ho, fun y hy => ?_⟩⟩
+      exact hs (ren old x y) ((hedges _).mpr ⟨(old, y), hy, by simp [ren]⟩)
+  · rintro (⟨hx, hxo⟩ | ⟨rfl, hold⟩)
+    · obtain ⟨hxg, hs⟩ := mem_outputNodes.mp hx
+      refine ⟨Or.inl ⟨hxg, hxo⟩, fun y hy => ?_⟩
+      obtain ⟨⟨a, b⟩, he0, heq⟩ := (hedges _).mp hy
+      simp only [Prod.mk.injEq] at heq
+      have ha : a = x := by
+        by_cases hao : a = old
+        · subst hao
+          have : x = new := by simpa [ren] using heq.1
+          subst this
+          exact absurd hxg hn
+        · simpa [ren, hao] using heq.1.symm
+      subst ha
+      exact hs b he0
+    · obtain ⟨_, hs⟩ := mem_outputNodes.mp hold
+      refine ⟨Or.inr rfl, fun y hy => ?_⟩
+      obtain ⟨⟨a, b⟩, he0, heq⟩ := (hedges _).mp hy
+      simp only [Prod.mk.injEq] at heq
+      by_cases hao : a = old
+      · subst hao; exact hs b he0
+      · have : x = a := by simpa [ren, hao] using heq.1
+        subst this
+        exact hn (h.closed _ he0).1
+
+/-- **insert_workflow_default_exact**: with `predecessors=None` an accepted
+    insertion has EXACTLY the tasks of the two workflows (no other task can
+    appear), and every connecting edge goes from a current output task of the
+    builder to an input task of the inserted workflow. -/
+theorem insert_workflow_default_exact (g other : DiGraph) (es : List (Nat × Nat)) (hg : WF g) (ho : WF other)
+    (hc : connectEdges (insertOuts g none) other.inputNodes = .ok es) :
+    (∀ x, x ∈ (insertWorkflow g other none).1.nodes ↔ x ∈ g.nodes ∨ x ∈ other.nodes) ∧
+    (∀ e, e ∈ (insertWorkflow g other none).1.edges ↔ e ∈ g.edges ∨ e ∈ other.edges ∨ e ∈ es) ∧
+    (∀ e ∈ es, e.1 ∈ g.outputNodes ∧ e.2 ∈ other.inputNodes) := by
+  obtain ⟨_, _, hn, he⟩ := insert_workflow_exact g other none es hg ho hc
+  have hep := connectEdges_endpoints hc
+  refine ⟨?_, he, hep⟩
+  intro x
+  rw [hn]
+  constructor
+  · rintro (h1 | h1 | ⟨e, hee, h1⟩)
+    · exact Or.inl h1
+    · exact Or.inr h1
+    · rcases h1 with rfl | rfl
+      · exact Or.inl (mem_outputNodes.mp (hep e hee).1).1
+      · exact Or.inr (mem_inputNodes.mp (hep e hee).2).1
+  · rintro (h1 | h1)
+    · exact Or.inl h1
+    · exact Or.inr (Or.inl h1)
+
+/-- **add_task_to_outputs_exact**: `add_task(t, predecessors=wb.output_tasks)`
+    adds only `t`, and exactly one edge from every current output task. -/
+theorem add_task_to_outputs_exact (g : DiGraph) (t : Nat) (h : WF g) :
+    WF (addTaskToOutputs g t) ∧
+    (∀ x, x ∈ (addTaskToOutputs g t).nodes ↔ x ∈ g.nodes ∨ x = t) ∧
+    (∀ e, e ∈ (addTaskToOutputs g t).edges ↔ e ∈ g.edges ∨ ∃ p ∈ g.outputNodes, e = (p, t)) := by
+  obtain ⟨hw, hn, he⟩ := add_task_exact g t g.outputNodes h
+  refine ⟨hw, ?_, he⟩
+  intro x
+  unfold addTaskToOutputs
+  rw [hn]
+  constructor
+  · rintro (h1 | h1 | h1)
+    · exact Or.inl h1
+    · exact Or.inr h1
+    · exact Or.inl (mem_outputNodes.mp h1).1
+  · rintro (h1 | h1)
+    · exact Or.inl h1
+    · exact Or.inr (Or.inl h1)
+
+/-- **compose_after_replace_exact**: a task that was replaced never comes back —
+    neither through `insert_workflow(other)` with `predecessors=None` nor through
+    `add_task(t, predecessors=wb.output_tasks)` — for every well-formed builder
+    graph, every replaced task and every inserted workflow not containing it. -/
+theorem compose_after_replace_exact (g other : DiGraph) (old new t : Nat) (hg : WF g) (hoth : WF other)
+    (ho : old ∈ g.nodes) (hn : new ∉ g.nodes) (hoo : old ∉ other.nodes) (ht : t ≠ old) :
+    old ∉ (insertWorkflow (replaceTask g old new) other none).1.nodes ∧
+    old ∉ (addTaskToOutputs (replaceTask g old new) t).nodes := by
+  obtain ⟨hw, hnodes, _⟩ := replace_task_exact g old new hg ho hn
+  have hne : new ≠ old := fun heq => hn (heq ▸ ho)
+  have hold : old ∉ (replaceTask g old new).nodes := by
+    rw [hnodes]; simp [hne.symm]
+  constructor
+  · cases hc : connectEdges (insertOuts (replaceTask g old new) none) other.inputNodes with
+    | error e =>
+      rw [insert_workflow_refusal_atomic _ _ _ e hc]; exact hold
+    | ok es =>
+      rw [(insert_workflow_default_exact _ other es hw hoth hc).1]
+      exact fun h => h.elim hold hoo
+  · rw [(add_task_to_outputs_exact _ t hw).2.1]
+    exact fun h => h.elim hold (fun h' => ht h'.symm)
+
 /-- **builder_ops_exact (`+`)**: the union of tasks and of edges. -/
 theorem plus_exact (g h : DiGraph) (hg : WF g) (hh : WF h) :
     WF (plus g h) ∧ (∀ x, x ∈ (plus g h).nodes ↔ x ∈ g.nodes ∨ x ∈ h.nodes) ∧
